@@ -23,18 +23,20 @@ RULE = ("histories of 0-6 steps from {Program(subset/order of libraries), import
 REQUIRED_COUNTERS = ["histories_run", "clean_room_references", "library_snapshots_compared", "duplicate_expectations_checked"]
 ASSUMPTIONS = ["identity of class objects is not compared (package libraries are re-executed per Program)", "order of names in the duplicate message is not judged"]
 
-USER = ["ulib", "ulib_extra", "ulibx", "other", "upkg", "upkg_more", "upkg_one", "upkgzone", "upkg.one", "upkg.two", "updup.a"]
+USER = ["ulib", "ulib_extra", "ulibx", "other", "upkg", "upkg_more", "upkg_one", "upkgzone", "upkg.one", "upkg.two", "updup.a", "usub", "updup.c"]
 CSV = list(arr.CSV_LIBS)
 NC = list(arr.NC_LIBS)
 PROBES = [["ulib"], ["ulib_extra"], ["ulibx"], ["other"], ["upkg"], ["upkg_more"], ["ulib", "other"], ["other", "ulib"], ["ulib", "ulib_extra"], ["ulib", "ulibx"],
           ["ulib_extra", "other"], ["upkg", "other"], ["upkg", "upkg_more"], CSV, NC, CSV + ["ulib"], ["ulib"] + NC, CSV + ["other", "upkg"], ["mpilot.libraries.eems.basic"],
           ["mpilot.libraries.eems.basic", "ulibx"], ["mpilot.libraries.eems.csv"], ["mpilot.libraries.eems.netcdf"], ["mpilot.libraries.eems.csv", "mpilot.libraries.eems.netcdf"],
           ["upkg.one"], ["upkg.one", "upkg.two"], ["upkg.one", "other"], ["upkg_one"], ["updup"], ["updup.a"], ["updup.a", "updup.b"], ["updup.a", "other"],
-          ["mpilot.libraries.eems"], ["upkg", "upkg_one"]]
+          ["mpilot.libraries.eems"], ["upkg", "upkg_one"], [], ["usub"], ["mpilot.libraries.eems.basic", "usub"], ["usub", "mpilot.libraries.eems.basic"], CSV + ["usub"],
+          ["updup.a", "updup.c"], ["updup.c"], ["upkg.two"], ["upkg.named", "upkg.one"], ["usub", "other"]]
 # expected duplicates by construction of the harness libraries (None = must succeed)
 DUPS = {("ulib", "ulib_extra"): ["Shared"], ("ulib", "ulibx"): ["Alpha"], ("upkg", "upkg_more"): ["PkgOne"],
         ("mpilot.libraries.eems.csv", "mpilot.libraries.eems.netcdf"): ["EEMSRead", "EEMSWrite"],
-        ("updup",): ["Shared"], ("updup.a", "updup.b"): ["Shared"], ("mpilot.libraries.eems",): ["EEMSRead", "EEMSWrite"], ("upkg", "upkg_one"): ["PkgOne"]}
+        ("updup",): ["Shared"], ("updup.a", "updup.b"): ["Shared"], ("mpilot.libraries.eems",): ["EEMSRead", "EEMSWrite"], ("upkg", "upkg_one"): ["PkgOne"],
+        ("mpilot.libraries.eems.basic", "usub"): ["Sum"], ("updup.a", "updup.c"): ["Shared"]}
 MODEL = "A = Alpha()\nB = Shared()"
 
 
